@@ -1,6 +1,7 @@
 //! Registry: which scenarios decide which property.
 
 use crate::common::Scenario;
+use crate::dd_decode;
 use crate::e1;
 use crate::e2::E2;
 use crate::e2_arp;
@@ -23,7 +24,7 @@ static C16: E2<e2_route::Route> = E2(e2_route::Route);
 static C04: E2<e2_udp::UdpBind> = E2(e2_udp::UdpBind);
 
 pub fn all() -> Vec<&'static dyn Scenario> {
-    vec![&e1::C01, &e1::C03, &e1::C12, &e1::C17, &e3::C11, &C05, &C04, &C06, &C02, &C13, &C20, &C15, &e2_dhcp::C15_GEN, &C16]
+    vec![&e1::C01, &e1::C03, &e1::C12, &e1::C17, &e3::C11, &C05, &C04, &C06, &C02, &C13, &C20, &C15, &e2_dhcp::C15_GEN, &C16, &dd_decode::C14_DEC]
 }
 
 pub fn get(name: &str) -> Option<&'static dyn Scenario> {
